@@ -1719,6 +1719,20 @@ def family_ref_to_ours(ctx, j, quick, rnd, pool):
                 scns.append({"id": f"ref-{k}", "fam": "read", "fmt": fmt, "multi": False, "parts": [p], "seed": rnd.getrandbits(32),
                              "reads": rnd.choice([[4096], [1], [7, 4096, 3], [65536], [1000]]), "want_recs": fmt == "xz"})
                 k += 1
+    # directed rows: incompressible input of >= 64 KiB (the reference emits uncompressed LZMA2 chunks of exactly 65 536 bytes,
+    # size field 0xFFFF, which the crate's own encoder never produces), highly compressible input of several MiB (LZMA chunks of
+    # 2 MiB uncompressed size), every preset once on the same text
+    for fmt in ("lzma2", "xz"):
+        for n in (65536, 70000, 131072, 200000):
+            for preset in (0, 6):
+                opt = {"preset": preset, "dict": 1 << 20}
+                if fmt == "xz":
+                    opt["check"] = "crc32"
+                scns.append({"id": f"ref-unc-{fmt}-{n}-{preset}", "fam": "read", "fmt": fmt, "multi": False, "seed": n + preset,
+                             "parts": [{"k": fmt, "src": "ref", "opt": opt, "n": n, "class": "random", "seed": n}], "reads": [4096], "want_recs": fmt == "xz"})
+        scns.append({"id": f"ref-big-{fmt}", "fam": "read", "fmt": fmt, "multi": False, "seed": 5,
+                     "parts": [{"k": fmt, "src": "ref", "opt": dict({"preset": 1, "dict": 1 << 20}, **({"check": "crc64"} if fmt == "xz" else {})),
+                                "n": 5 << 20, "class": "zeros", "seed": 1}], "reads": [65536], "want_recs": fmt == "xz"})
     res = run_scenarios(scns)
     log(f"[impl] liblzma -> ours: {len(scns)} reference-encoded streams decoded by the crate in {time.time()-t0:.1f}s")
     rruns = []
@@ -1729,7 +1743,8 @@ def family_ref_to_ours(ctx, j, quick, rnd, pool):
         if r1["outcome"] in ("build_err", "panic", "bad_family"):
             if r1["outcome"] == "build_err":
                 raise ToolError(f"reference encoder rejected configuration of {s['id']}: {r1.get('err')} {opt}")
-            j.violation("C06", f"reader panicked on a reference stream: {r1.get('err')}", {"family": "ref_to_ours", "fmt": s["fmt"], "outcome": "panic"},
+            j.violation("C03", f"the crate's {s['fmt']} reader panicked on a stream produced by liblzma (preset {opt.get('preset')}, {p['n']} bytes of "
+                               f"{p['class']} data): {r1.get('err')}", {"family": "ref_to_ours", "fmt": s["fmt"], "class": p["class"], "outcome": "panic"},
                         {"scenario": strip(s), "source": "grid"})
             continue
         if not (r1["ref"]["ok"] and r1["ref"]["len"] == r1["content_lens"][0]):
